@@ -105,6 +105,11 @@ var c06Attacks = []C06Plan{
 	// forged entries presented while a genuine registration of the same voucher is live
 	{Attack: "broken-chain-overwrite"}, {Attack: "entry-swap"}, {Attack: "entry-swap-overwrite"},
 	{Attack: "zero-entries"}, {Attack: "broken-chain"}, {Attack: "foreign-nonce"}, {Attack: "hash-mismatch"}, {Attack: "replay"},
+	// the same forgeries while one read or write of the rendezvous server's
+	// state backend fails during the handling of OwnerSign
+	{Attack: "replay+fail:TO0SignNonce"}, {Attack: "foreign-nonce+fail:TO0SignNonce"}, {Attack: "hash-mismatch+fail:TO0SignNonce"},
+	{Attack: "forged-signer+fail:TO0SignNonce", KeyRole: "att1"}, {Attack: "broken-chain+fail:TO0SignNonce"},
+	{Attack: "replay+fail:InvalidateToken"}, {Attack: "forged-signer+fail:RVBlob", KeyRole: "att1"}, {Attack: "replay+fail:RVBlob"},
 }
 
 func (p *c06) Prepare(t *testing.T, tier string, seed uint64) {
@@ -409,6 +414,11 @@ func c06Run(env *Env, pl *C06Plan, collect *[]byte) {
 	}
 
 	// forged requests
+	storeFault := ""
+	if a, m, ok := strings.Cut(pl.Attack, "+fail:"); ok {
+		pl = &C06Plan{Seed: pl.Seed, Key: pl.Key, Enc: pl.Enc, Chain: pl.Chain, Sql: pl.Sql, Policy: pl.Policy, TTL: pl.TTL, Attack: a, KeyRole: pl.KeyRole, Ord: pl.Ord}
+		storeFault = m
+	}
 	mustReject := true
 	if pl.Attack == "forged-overwrite" || pl.Attack == "replay" || strings.HasSuffix(pl.Attack, "-overwrite") {
 		if _, err := s.TO0(ctx, "owner1", "rv", guid, 3600); err != nil {
@@ -485,7 +495,16 @@ func c06Run(env *Env, pl *C06Plan, collect *[]byte) {
 		return
 	}
 	j0 := s.Journal.Len()
+	if rv := s.Nodes["rv"]; storeFault != "" && rv.Sim != nil {
+		rv.Sim.FailNext[storeFault] = 1
+	}
 	rt, _, _ := adv.Send(22, body)
+	if rv := s.Nodes["rv"]; storeFault != "" && rv.Sim != nil {
+		if rv.Sim.FailNext[storeFault] == 0 {
+			o.Fault("store-error:" + storeFault)
+		}
+		rv.Sim.FailNext[storeFault] = 0
+	}
 	n, last := rvBlobs(j0)
 	o.Nontrivial = true
 	o.Sample = map[string]any{"attack": pl.Attack + ":" + pl.KeyRole, "response": rt, "stored": n, "guid": gk}
@@ -497,7 +516,7 @@ func c06Run(env *Env, pl *C06Plan, collect *[]byte) {
 		o.Class = "control-ok"
 	case rt == 23 || n > 0:
 		o.Class = "STORED-FORGED-BLOB"
-		o.Violate("C06", "forged-registration-stored", pl.Attack+"|"+pl.KeyRole, "rendezvous server answered %d and stored %d blob(s) (%s) for a request that is %s (plan %+v)", rt, n, last.Note, pl.Attack, *pl)
+		o.Violate("C06", "forged-registration-stored", pl.Attack+"|"+pl.KeyRole+"|"+storeFault, "rendezvous server answered %d and stored %d blob(s) (%s) for a request that is %s (state backend fault: %q; plan %+v)", rt, n, last.Note, pl.Attack, storeFault, *pl)
 	default:
 		o.Class = "rejected"
 	}
